@@ -20,6 +20,9 @@ def run(ck):
                       "SUBSCRIBE, PUBLISH (QoS 1) and PINGREQ: accepted iff the user is a key and the password the stored one (auth_decision), accepted connections "
                       "fully served (requests_answered), refused ones get CONNACK 5 and nothing else, are closed, publish nothing, are never set up "
                       "(nothing_after_refusal); each of the 14 other packet kinds first: closed without a byte in reply, no Authenticate call, a following "
-                      "CONNECT ignored (nothing_before_connect)")
+                      "CONNECT ignored (nothing_before_connect); over an in-memory carrier whose writer blocks when the peer does not read: n+3 SUBSCRIBE / UNSUBSCRIBE / QoS 1 PUBLISH "
+                      "(each kind and mixed) pipelined beyond the n = 2 and 10 tokens by a peer that reads late, before and after a silence of 1.4 token timeouts (1 s): still connected, "
+                      "every request answered (pipelined_answered); a resumed session releasing 2..3 QoS 2 publishes of its earlier connection next to as many QoS 1 publishes and "
+                      "SUBSCRIBE / UNSUBSCRIBE as there are tokens (2, 3, 4, 10) while its peer does not read: every request answered once it reads (acks_beyond_queue)")
     if ex:
         ck.samples = ck.samples[:4] + [l for l in ex if l.startswith("direct ")][:3]
